@@ -40,17 +40,18 @@ CLAIMED = {
              note="Trusted base: z3 (QF_NRA for K1), symx, stubs in the evidence file; EOM configuration numbers concrete; emulator equivalence outside the claim."),
  "C05": dict(text="Bounded symbolic model checking of the emulated Hamiltonian: the real QutipEmulator.from_sequence / __init__, "
              "Hamiltonian.__init__ / set_config / _extract_samples / _construct_hamiltonian / get_hamiltonian (over the real sampler and "
-             "to_nested_dict) run on 10 (quick) / 15 (thorough) programs - one to three bases, global/local/multi-target channels, DMM with symbolic "
+             "to_nested_dict) run on 12 (quick) / 17 (thorough) programs - one to three bases, global/local/multi-target channels, DMM with symbolic "
              "weights, SLM mask in Ising and XY mode, 3D register with a tilted magnetic field, permuted atom ids, EOM block, phase shifts - with "
              "concrete timelines/phases/geometry and symbolic amplitudes, detunings and detuning-map weights; for every integer t in [0,T) every "
              "entry of H(t) is compared with the documented formula built from the schedule's slots (state ordering, tensor order, "
              "Omega/2 e^{-i phi}|a><b| + h.c. - delta|b><b|, C6/R^6 n_i n_j, C3(1-3cos^2)/R^3 exchange with masked atoms decoupled), "
-             "plus Hermiticity and the documented basis vectors.", ref="§12",
+             "plus Hermiticity and the documented basis vectors; also on coarser sampling grids, after configuration changes (SPAM noise then "
+             "reset, dephasing, noiseless view, an earlier leakage emulator) with a stubbed state-preparation draw.", ref="§12",
              note="Trusted base: z3, symx (complex proxy = pair of exact reals), and the stand-in for qutip.QobjEvo (keeps the (operator, "
              "coefficient array) terms; sum on grid times) - all other QuTiP calls are the compiled ones on concrete data. Entries compared within "
              "1e-6 absolute (+1e-9 relative on interaction strengths). Outside: noise, sampling_rate<1, modulation, t=T, overlapping non-zero pulses "
              "of two channels on one atom/basis, symbolic geometry or phases. Known finding F17 (phases of two Global channels on one basis add) is "
-             "reported as KNOWN-FINDING; F18 (XY mask interaction off by 1 ns) was repaired in /repo."),
+             "reported as KNOWN-FINDING; F18 (XY mask interaction off by 1 ns) and F25 (leakage state leaking into later emulators) were repaired in /repo."),
  "C06": dict(text="Bounded symbolic model checking of sampling: 9 programs (global/local/multi-target channels, retargets, DMM with "
              "detuning map, XY + SLM mask, EOM blocks incl. modify and enable/disable on an empty channel) with concrete timelines and symbolic "
              "amplitudes, detunings and detuning-map weights; every nanosecond of every channel, of the per-atom view (all_local False/True) and of "
@@ -131,7 +132,7 @@ def main():
                 engine="symx",
                 level_claimed=dict(category="model_checking", text=c["text"], design_ref=c["ref"]),
                 level_note=c.get("note", L1_NOTE),
-                technique=c.get("technique", "symbolic execution of the real Python functions on z3-backed proxies (path-exhaustive, bounded shapes) + SMT decision of each obligation + concrete replay"),
+                technique=c.get("technique", "symbolic execution of the real Python functions on z3-backed proxies (path-exhaustive, bounded shapes) + SMT decision of each obligation + concrete replay of every counterexample and of one path witness per shape on the unshimmed code"),
             ))
     na = []
     for p in props:
